@@ -7,8 +7,7 @@ from pyvc import replay as _replay
 
 PROP = "C33"
 
-Sig = TOpaque("Signature")
-SQLBaseError = ref_class("sqlfluff.core.errors:SQLBaseError", line_no=INT, line_pos=INT)
+from .types import Sig, SQLBaseError  # noqa: E402
 
 
 @spec(uninterpreted=True)
@@ -66,14 +65,6 @@ class deduplicate_in_source_space:
             and all(any(sig(violations[k]) == s for k in range(0, _i)) for s in dedupe_buffer))
 
 
-def _build_err(rng, gen):
-    from sqlfluff.core.errors import SQLBaseError as E, SQLLintError, SQLParseError
-    cls = rng.choice([E, SQLParseError])
-    e = cls(description=rng.choice(["d1", "d2"]), line_no=rng.choice([1, 1, 2, 3]), line_pos=rng.choice([1, 2, 5]))
-    return e
-
-
-_replay.BUILDERS["SQLBaseError"] = _build_err
 TRUSTED = ["every override of SQLBaseError.source_signature is a deterministic, effect-free function of the object"]
 NOT_COVERED = ["the data-flow fact that Linter.lint_parsed passes the concatenation over all variants through this function "
                "is checked syntactically (EXTRA below), not by symbolic execution of lint_parsed"]
